@@ -272,12 +272,43 @@ def run_case(spec):
         # a listening factory that refuses a connection the documented way (buildProtocol() returns None): the opener
         # must be told (connectionLost), and subchannels opened afterwards must work
         class Refusing(RecFactory):
+            refuse_first = None          # None: always; k: only the first k connections
+
             def buildProtocol(self, addr):
-                self.refused = getattr(self, "refused", 0) + 1
-                return None
+                if self.refuse_first is None or getattr(self, "refused", 0) < self.refuse_first:
+                    self.refused = getattr(self, "refused", 0) + 1
+                    return None
+                return RecFactory.buildProtocol(self, addr)
         fr = Refusing(dp, "A.refuser")
-        dp.dw["A"].listener_for("refuser").listen(fr)
-        r1 = drv.open("B", "refuser")
+        parked_extra = []
+        if spec["seed"] % 4 == 0:
+            # the OPENs arrive before anybody listens and wait; the listener that comes later declines the first of them
+            # and takes the others
+            fr.refuse_first = 1
+            r1 = drv.open("B", "refuser")
+            sch.drain(5.0, 600, until=lambda: r1["proto"] is not None)
+            parked_extra = [drv.open("B", "refuser") for _ in range(rng.randint(1, 2))]
+            sch.drain(10.0, 1500, until=lambda: all(x_["proto"] is not None for x_ in parked_extra))
+            for x_ in parked_extra:
+                if x_["proto"] is not None:
+                    drv.write(x_["proto"], b"parked behind a declined one")
+            sch.drain(10.0, 1500, until=lambda: False)
+            listen_res = []
+            dp.dw["A"].listener_for("refuser").listen(fr).addBoth(listen_res.append)
+            sch.drain(60.0, 4000, until=lambda: bool(listen_res) and r1["proto"] is not None and "lost" in [e[0] for e in r1["proto"].events] and len(fr.built) >= len(parked_extra))
+            if listen_res and hasattr(listen_res[0], "type"):
+                viol_refuse.append({"key": "C13/listen-fails-because-the-factory-declined-a-waiting-open/" + listen_res[0].type.__name__, "msg": "listen() errback: %r" % (listen_res[0].value,), "witness": {"spec": spec}})
+            got_ = [[e[1] for e in p_.events if e[0] == "data"] for (_, p_) in fr.built]
+            if len(fr.built) != len([x_ for x_ in parked_extra if x_["proto"] is not None]) or any(g_ != [b"parked behind a declined one"] for g_ in got_):
+                viol_refuse.append({"key": "C13/waiting-opens-lost-when-the-listener-declines-one", "msg": "%d OPENs waited behind the declined one; the listener was offered %d of them, data %s" % (len(parked_extra), len(fr.built), got_), "witness": {"spec": spec}})
+            for x_ in parked_extra:
+                if x_ in drv.opens:
+                    drv.opens.remove(x_)
+                if x_["proto"] is not None and drv.is_open(x_["proto"]):
+                    drv.close(x_["proto"])
+        else:
+            dp.dw["A"].listener_for("refuser").listen(fr)
+            r1 = drv.open("B", "refuser")
         sch.drain(60.0, 4000, until=lambda: r1["proto"] is not None and "lost" in [e[0] for e in r1["proto"].events])
         refusals = getattr(fr, "refused", 0)
         saved_stop, drv.stop = drv.stop, False
@@ -358,7 +389,7 @@ def run_case(spec):
     nontrivial = trace_digest(sch) if (nsub and closes) else None
     benign = {"CloseForMissingSubchannelError", "DataForMissingSubchannelError"}
     return {"violations": viol, "nontrivial": nontrivial,
-            "counters": {"subchannels": nsub, "closes": closes, "writes_after_close": writes_after_close, "writes_right_after_close": len(early_wac), "unencodable_names_tried": bad_name["tried"], "opens_refused_by_factory": refusals, "subchannels_open_at_wormhole_close": still_open, "half_closed_subchannels_at_wormhole_close": half_open_at_close_before, "calls_from_inside_protocol_callbacks": drv.reactions_done, "errors_escaping_connectionLost": drv.escaped, "false_factories": drv.falsy_factories, "undeclared_opens": undeclared,
+            "counters": {"subchannels": nsub, "closes": closes, "writes_after_close": writes_after_close, "writes_right_after_close": len(early_wac), "unencodable_names_tried": bad_name["tried"], "opens_refused_by_factory": refusals, "waiting_opens_declined_by_a_late_listener": int(bool(refusals) and spec["seed"] % 4 == 0 and not spec["expected"]), "subchannels_open_at_wormhole_close": still_open, "half_closed_subchannels_at_wormhole_close": half_open_at_close_before, "calls_from_inside_protocol_callbacks": drv.reactions_done, "errors_escaping_connectionLost": drv.escaped, "false_factories": drv.falsy_factories, "undeclared_opens": undeclared,
                          "late_listens": late_listens, "half_protocols": sum(isinstance(p, HalfRecProto) for p in all_protos),
                          "opens": len(drv.opens), "connects_around_wormhole_close": len(late), "notrans_seen": len(MON.notrans)},
             "sets": {"connects_around_wormhole_close": late_outcomes, "write_after_close_errors": sorted({e for (_, e, _) in wac_errors if e} | {e[1] for e in early_wac if e[1]}),
